@@ -24,7 +24,7 @@ import (
 //   sql    : (quote) the inline SQL's string constant, as PostgreSQL's scanner decodes it, is w
 //   params : (quote) the parameter list contains the Go string w
 
-var valChars = []string{"a", "b", "5", " ", "\t", "\n", "*", "?", "/", `\`, "'", ":", "(", ")", "[", "+", "-", "~", "^", "!", ",", "%", "_", ";", "é", "中", "😀"}
+var valChars = []string{"a", "b", "5", " ", "\t", "\n", "*", "?", "/", `\`, "'", ":", "(", ")", "[", "+", "-", "~", "^", "!", ",", "%", "_", ";", "é", "中", "😀", "\ufffd"}
 
 var c08Slots = []string{"eq", "cmp", "lo", "hi", "list", "bare", "baredf", "field"}
 
@@ -70,7 +70,7 @@ func init() {
 		},
 		Eval:   c08Eval,
 		Shrink: c08Shrink,
-		Rule: "every string of <= L runes over 27 characters (letters, digit, space, tab, newline, * ? / \\ ' : ( ) [ + - ~ ^ ! , % _ ; é 中 😀; the escaping clause adds \") placed, quoted resp. backslash-escaped, as equality value, comparison value, either range bound, list element, bare term (also as the whole query under a default field) and (escaping) field name; " +
+		Rule: "every string of <= L runes over 28 characters (letters, digit, space, tab, newline, * ? / \\ ' : ( ) [ + - ~ ^ ! , % _ ; é 中 😀 U+FFFD; the escaping clause adds \") placed, quoted resp. backslash-escaped, as equality value, comparison value, either range bound, list element, bare term (also as the whole query under a default field) and (escaping) field name; " +
 			"non-trivial = accepted by Parse; distinct = distinct (string, slot) pairs accepted",
 		Assumptions: []string{"strings that Go reads as numbers (incl. Inf/NaN) and the keywords AND OR NOT TO are excluded from the escaping clause; strings with NUL or invalid UTF-8 are outside the quantifier",
 			"if the inline renderer rejects the query (C03's business) the sql clause is skipped"},
